@@ -322,6 +322,9 @@ func runC05(t *testing.T, sc *Scenario) Result {
 		res.Violate("infra", "boot", obs.BootErr)
 		return res
 	}
+	for _, f := range sc.Faults {
+		res.fault(f, 1)
+	}
 	c05Monitor(obs, conns, &res)
 	if res.Verdict == "violation" {
 		res.Site = strings.SplitN(sc.Class, "/", 2)[0] + ":" + res.Site
